@@ -178,6 +178,7 @@ type Sched struct {
 	costAt   []int // cumulative cost before each point
 	cost     int
 	steps    uint64
+	quietOps uint64 // atomic operations performed without a scheduling point of their own (vatomic quiet mode)
 	status   Status
 	detail   string
 	aborting bool
@@ -918,6 +919,17 @@ func Cur() *Sched { return S }
 func (s *Sched) CurThread() *Thread { return s.cur }
 
 func (s *Sched) IsAborting() bool { return s == nil || s.aborting }
+
+// QuietOp counts an atomic operation that is not a scheduling point. Code that loops over such operations only
+// (a counter incremented four billion times) never reaches the step cap; past two million of them in one execution
+// the thread panics, which ends the execution as a crash the harness can report instead of a hang.
+func (s *Sched) QuietOp() {
+	s.quietOps++
+	if s.quietOps > 2_000_000 {
+		s.quietOps = 0
+		panic("vrt: runaway loop: more than 2000000 atomic operations without a scheduling point in one execution")
+	}
+}
 
 func (s *Sched) Commit(kind uint8, o *Obj, write bool, res uint64) {
 	if s == nil || s.aborting {
